@@ -40,7 +40,9 @@ package postprocess
 //@ func buildDeferTree.Process
 //@   requires response != nil && b != nil
 //@   at call slices.SortFunc: assert {the.sibling.list.of.this.parent.is.sorted} arr(arg0) == arr(childrenOf[k]) && len(arg0) == len(childrenOf[k])
-//@   at call buildDeferTree.buildChain: assert {every.sibling.list.was.sorted.before.a.tree.node.is.built} forall q :: has(childrenOf, q) ==> visited(0, q)
+//@   ghost var g_s intarray = zeroarray
+//@   at call slices.SortFunc: ghost g_s = store(g_s, k, 1)
+//@   at call buildDeferTree.buildChain: assert {every.sibling.list.was.sorted.before.a.tree.node.is.built} forall q :: has(childrenOf, q) ==> g_s[q] == 1
 //@   ensures {every.announced.defer.is.scheduled} !old(b.disable) && old(len(response.Defers)) > 0 ==> (forall id :: has(response.DeferDescriptors, id) ==> ownsGroup(response, id))
 //@   modifies *
 //@   loop 0:
@@ -51,8 +53,10 @@ package postprocess
 //@     invariant fresh(childrenOf) && response.Defers == old(response.Defers)
 //@     invariant forall k :: has(childrenOf, k) ==> childrenOf[k] == nil || fresh(childrenOf[k])
 //@     invariant forall id :: has(response.DeferDescriptors, id) ==> ownsGroup(response, id)
+//@     invariant {the.sibling.list.of.every.parent.met.so.far.was.sorted} forall q :: visited(0, q) ==> g_s[q] == 1
 //@   loop 2:
 //@     invariant forall id :: has(response.DeferDescriptors, id) ==> ownsGroup(response, id)
+//@     invariant forall q :: has(childrenOf, q) ==> g_s[q] == 1
 
 // C08: a merged (multi) fetch must wait for every dependency of every member that is not itself a member;
 // rewiring a removed fetch id must reach every fetch of the (possibly nested) tree.
